@@ -101,6 +101,7 @@ class Ctx:
             self.solver.push()
             self.pc = list(parent.pc)
             self.tfacts = list(parent.tfacts)
+            self.ghost = dict(parent.ghost)
         else:
             self.ax = Axioms()
             self.ax.extra_rules = list((opts or {}).get("extra_rules", []))
@@ -111,7 +112,8 @@ class Ctx:
         self.notes = {"inlined": set(), "unrolled": {}, "native": set(), "assumed_contracts": set()}
         self.counters = {}
         self.opts = opts or {}
-        self.ghost = {}
+        if not (parent is not None and parent.solver is not None):
+            self.ghost = {}
         self.spec_apps = parent.spec_apps if parent is not None else {}
         self.inputs = parent.inputs if parent is not None else []
         if parent is not None:
@@ -719,6 +721,8 @@ class Interp:
     def e_Name(self, e, fr):
         if e.id in fr.locals:
             return fr.locals[e.id]
+        if e.id.startswith("ghost_") and e.id in self.ctx.ghost:
+            return self.ctx.ghost[e.id]
         if e.id in fr.globals:
             return fr.globals[e.id]
         if hasattr(builtins, e.id):
@@ -1105,11 +1109,13 @@ class Interp:
             z = elt_at(self, s.z.children(), zi(k))
             if s.elem == "int":
                 return mk_int(z)
-            return specs.vbytes_from_term(z3.simplify(z)) if s.elen is None else VBytes([Chunk(z3.simplify(z), s.elen)])
+            b = specs.vbytes_from_term(z3.simplify(z)) if s.elen is None else VBytes([Chunk(z3.simplify(z), s.elen)])
+            return VHex(b) if s.elem == "hex" else b
         z = s.z[zi(k)]
         if s.elem == "int":
             return mk_int(z)
-        return VBytes([Chunk(z, s.elen)])
+        b = VBytes([Chunk(z, s.elen)])
+        return VHex(b) if s.elem == "hex" else b
 
 
 class ExcValue:
